@@ -76,8 +76,10 @@ def main():
     kq = [None, None, "quantized_bits(8,2,1)", "quantized_bits(4,0,1,alpha=1.0)", "quantized_po2(6)"][int(rng.integers(0, 5))]
     bq = [None, None, "quantized_bits(8,3,1)"][int(rng.integers(0, 3))]
     tiny, zg = bool(rng.integers(0, 6) == 0), bool(rng.integers(0, 6) == 0)
+    pick_efd = [None, None, 0, 100, -1, 5][int(rng.integers(0, 6))]
+    it0 = int([-1, -1, 0, 3, 1000][int(rng.integers(0, 5))])
     desc = dict(depthwise=depthwise, mode=mode, use_bias=use_bias, scale=scale, center=center, strides=s, dilation=d, padding=pad,
-                ci=ci, co=co, kq=kq, bq=bq, tiny_variance=tiny, zero_gamma=zg)
+                ci=ci, co=co, kq=kq, bq=bq, tiny_variance=tiny, zero_gamma=zg, ema_freeze_delay=pick_efd, iteration=it0)
     rep.count(tuple(sorted((k, str(v)) for k, v in desc.items())))
     if sample is None:
       sample = desc
@@ -87,11 +89,12 @@ def main():
       desc["depth_multiplier"] = dm
       cout = ci * dm if depthwise else co
       fs.batchnorm = FakeBN(cout, rng, center=center, scale=scale, tiny_var=tiny, zero_gamma=zg and scale)
-      fs.ema_freeze_delay = None
+      # inference must use the moving statistics whatever the freeze delay / iteration counter say
+      fs.ema_freeze_delay = pick_efd
       fs.use_bias = use_bias
       fs.bias = tf.constant(rng.normal(0, 1, size=cout).astype("float32")) if use_bias else None
       fs.strides, fs.padding, fs.data_format, fs.dilation_rate = (s, s), pad, "channels_last", (d, d)
-      fs._iteration = tf.Variable(-1, dtype=tf.int64)
+      fs._iteration = tf.Variable(it0, dtype=tf.int64)
       fs.folding_mode = mode
       fs.bias_quantizer = bq
       fs.bias_quantizer_internal = get_quantizer(bq) if bq else None
